@@ -229,12 +229,13 @@ def register(vc):
 @obligation("C19", "obs", ensures=["O-C19-obs.loaded", "O-C19-obs.saved", "O-C19-obs.reach-filter"],
             fns=[CE + "CentralizedTaskingEngine.loadImportedObservations", CE + "CentralizedTaskingEngine._attachObsMetadata", CE + "CentralizedTaskingEngine.assess",
                  "resonaate.tasking.engine.engine_base:TaskingEngine.saveObservations", SF.SC + "Scenario.stepForward"], mode="Z",
-            bounded="3 stored observations (two of them from the same sensor position and target: one is a duplicate), 2 targets",
+            bounded="4 stored observations (two of them from the same sensor position and target: one is a duplicate; a third from the same sensor position of another target), 2 targets",
             note="every stored observation of the epoch whose (sensor position, target) is first-seen is returned with its sensor's measurement model attached, saved by the engine, and handed to the update job of exactly its target's estimate; exact duplicates are dropped")
 def obs(vc):
     mk = lambda tag, sid, tid, pos: _NS(tag=tag, sensor_id=sid, target_id=tid, pos_x_km=pos[0], pos_y_km=pos[1], pos_z_km=pos[2], measurement=None,
                                         makeDictionary=lambda: {"sensor_id": sid, "target_id": tid, "julian_date": 0})  # (a dict, as _DataMixin.makeDictionary returns)
-    rows = [mk("a", 10, 1, (1.0, 2.0, 3.0)), mk("dup", 10, 1, (1.0, 2.0, 3.0)), mk("b", 11, 2, (4.0, 5.0, 6.0))]
+    # ("c": the same sensor, hence the same sensor position, observed a DIFFERENT target at this epoch - not a duplicate)
+    rows = [mk("a", 10, 1, (1.0, 2.0, 3.0)), mk("dup", 10, 1, (1.0, 2.0, 3.0)), mk("c", 10, 2, (1.0, 2.0, 3.0)), mk("b", 11, 2, (4.0, 5.0, 6.0))]
     queries = []
     vc.install(CE + "@Query", lambda *a: _NS(join=lambda *b: _NS(filter=lambda *c: (queries.append(c), "QUERY")[1])))
     vc.install(CE + "@Epoch", _NS(timestampISO=_NS(__eq__=None)))
@@ -245,9 +246,9 @@ def obs(vc):
     eng = vc.new(CE + "CentralizedTaskingEngine", _importer_db=_NS(getData=lambda q: list(rows)), _sensor_store=sensors, _observations=[], _saved_observations=[],
                  _realtime_obs=False, target_list=[1, 2], sensor_list=[10, 11], _reward=_NS(metrics=[1]), logger=SF.NullLogger())
     out = eng.loadImportedObservations(when)
-    vc.ensure("O-C19-obs.loaded", [o.tag for o in out] == ["a", "b"] and out[0].measurement == "M10" and out[1].measurement == "M11")
+    vc.ensure("O-C19-obs.loaded", [o.tag for o in out] == ["a", "c", "b"] and out[0].measurement == "M10" and out[1].measurement == "M10" and out[2].measurement == "M11")
     eng.assess("PRIOR", when)
-    ok_saved = [o.tag for o in eng._observations] == ["a", "b"] and [o.tag for o in eng._saved_observations] == ["a", "b"]
+    ok_saved = [o.tag for o in eng._observations] == ["a", "c", "b"] and [o.tag for o in eng._saved_observations] == ["a", "c", "b"]
     # the same with simulated ("realtime") observations switched on as well: stored observations are used whenever an importer database is given
     vc.install(CE + "@handleRelevantEvents", lambda *a, **k: None)
     vc.install(CE + "@TaskingRewardRegistration", lambda *a: "reward-job")
@@ -259,7 +260,7 @@ def obs(vc):
                   _reward=_NS(metrics=[1], normalizeMetrics=lambda mm: mm, calculate=lambda mm: np.zeros(4)), _decision=_NS(calculate=lambda r, v: np.zeros((2, 2), dtype=bool)),
                   _reward_executor=ex, _task_exec_executor=ex, _database="DB", _unique_id=5, target_indices={1: 0, 2: 1}, _missed_observations=[], _saved_missed_observations=[])
     eng2.assess("PRIOR", when)
-    ok_saved = ok_saved and [o.tag for o in eng2._observations] == ["a", "b"] and [o.tag for o in eng2._saved_observations] == ["a", "b"]
+    ok_saved = ok_saved and [o.tag for o in eng2._observations] == ["a", "c", "b"] and [o.tag for o in eng2._saved_observations] == ["a", "c", "b"]
     vc.ensure("O-C19-obs.saved", ok_saved)
     # routing inside the step: observations of target k reach the update job of estimate k only
     oa, ob = _NS(tag="a", sensor_id=10, target_id=1), _NS(tag="b", sensor_id=11, target_id=2)
